@@ -17,6 +17,7 @@ import (
 // C03: the static result is referentially closed and the stop hierarchy is a forest.
 
 type CaseTables struct {
+	vt.Env
 	Tables  sgen.Tables
 	Inherit bool
 	Labels  []string `json:",omitempty"`
@@ -267,6 +268,7 @@ func propC03(t *rapid.T) {
 	k := rapid.IntRange(0, 6).Draw(t, "nEdits")
 	mts, labels := sgen.Mutate(t, ts, k, false)
 	c := CaseTables{Tables: mts, Inherit: rapid.Bool().Draw(t, "inherit"), Labels: labels}
+	c.Env = genEnv(t)
 	cls := []string{}
 	hostile := false
 	for _, l := range labels {
